@@ -1,4 +1,5 @@
 import NettyVerif.Proofs.ChanClose
+import NettyVerif.Model.Carrier
 /-! # C11 — Writes on a closed channel fail and transmit nothing
 
 Chan LTS with the repaired entry check: every write entry point first evaluates `closedError()`,
@@ -49,9 +50,25 @@ example : (run ({ sync := false, cap := 2 } : St Nat)
     [.closeCas, .closeLen, .closeLoad, .closeSetErr, .closeTr, .closeCancel, .closeFire, .rejectWrite]).map
       (fun s => (s.closed, s.accepted, s.inflight)) = some (true, [], 0) := by decide
 
+/-! ## the streaming entry point -/
+open NettyVerif.Carrier in
+/-- ReadFrom with a Close falling between two chunks: exactly the chunks read before the close are
+    written, nothing read afterwards is, and the call reports the close error (every chunk goes
+    through the closed check of the low-level write, which `C11_reject` shows to refuse) -/
+theorem C11_readfrom_stops_at_close (chunks : List Carrier.Bytes) (j : Nat) (h1 : 0 < j) (h2 : j ≤ chunks.length) :
+    (readFromClosing chunks j).1 = chunks.take (j - 1) ∧ (readFromClosing chunks j).2.2 = true ∧
+    (readFromClosing chunks j).1.flatten.length ≤ (readFromClosing chunks j).2.1 := by
+  have hc : ¬ (j = 0 ∨ j > chunks.length) := by omega
+  simp only [readFromClosing, hc, if_false, true_and]
+  have : chunks.take j = chunks.take (j - 1) ++ (chunks.drop (j - 1)).take 1 := by
+    have : j = (j - 1) + 1 := by omega
+    rw [this, List.take_add]; simp
+  rw [this]; simp
+
 end NettyVerif.C11
 
 #print axioms NettyVerif.C11.C11_closed_monotone
 #print axioms NettyVerif.C11.C11_reject
 #print axioms NettyVerif.C11.C11_sealed_step
 #print axioms NettyVerif.C11.C11_nothing_accepted_after_close
+#print axioms NettyVerif.C11.C11_readfrom_stops_at_close
